@@ -45,6 +45,26 @@ fn part_a(bytes: &[u8], stats: &mut Stats) -> Verdict {
                     // mate or stalemate
                     let f = *s.pick(&["7k/5Q2/6K1/8/8/8/8/8 b - - 0 1", "k7/2Q5/1K6/8/8/8/8/8 b - - 0 1", "R6k/6pp/8/8/8/8/8/K7 b - - 0 1", "8/8/8/8/8/5k2/5p2/5K2 w - - 0 1"]);
                     Op::SetPos(format!("position fen {}", f), Pos::from_fen(f).unwrap().0)
+                } else if s.chance(25) {
+                    // a game history with repeated positions (the root itself may have occurred before)
+                    let start = if s.bool() { Pos::startpos() } else { gen::g_small(&mut s).0 };
+                    match crate::props::c09::build_history(&mut s, &start) {
+                        Some((moves, last)) => {
+                            let mut t = format!("position fen {}", start.fen(0, 1));
+                            if !moves.is_empty() {
+                                t.push_str(" moves");
+                                for m in &moves {
+                                    t.push(' ');
+                                    t.push_str(&m.uci());
+                                }
+                            }
+                            Op::SetPos(t, last)
+                        }
+                        None => {
+                            let c = gen_position_cmd(&mut s, 30, true);
+                            Op::SetPos(c.text, c.expected)
+                        }
+                    }
                 } else {
                     let c = gen_position_cmd(&mut s, 30, true);
                     Op::SetPos(c.text, c.expected)
